@@ -1,7 +1,7 @@
 import SaModel.Build.Finish
 import SaModel.Spec.Interp
 import SaModel.Props.C03
-import SaModel.Props.C01
+import SaModel.Props.C01Obs
 import SaModel.Props.C02
 import SaModel.Lemmas.C05Exact
 import SaModel.Lemmas.C05ReadStruct
@@ -257,47 +257,61 @@ theorem dict_key_overflow (ext : Ext) (p : String) (t : IntTy) (v : Validity) (k
 
 /-- **ok ⇒ exact (one push).**  If a push of ANY serde value `x` (any nesting) into a builder built for the field
 `(dt, n, md)` succeeds, the documented mapping `Spec.interpDT` is defined on `x` and the builder holds exactly its
-previous rows followed by that value: nothing wrapped, truncated, defaulted or dropped.  Hypotheses are those of R2
-(`Props.C01.push_interp`): the state invariant `WFB`, the schema condition `Safe`, `Shape` (the builder is the one
+previous rows followed by that value: nothing wrapped, truncated, defaulted or dropped.  Hypotheses are those of R2' for
+determined states (`Props.C01.push_interp_det`, the hidden-rows refinement of Props/C01Obs.lean — NO `Safe`): the WEAK
+state invariant `WFH`, `NoDictKey` (holds of every builder `build_builder` constructs) and `Det b` (no row of `b` is
+undetermined) — all three hold of every strictly well-formed state (`WFH_of_WFB`, `Det_of_WFB`: the former hypotheses
+`WFB b`, `Safe b` imply them) and of the root of `to_marrow` after every record; `Shape` (the builder is the one
 `build_builder` makes for the field), `structStreamsAlternate` (every raw key/value call stream inside `x` alternates:
 Map builders refuse the others, struct builders ACCEPT them although the mapping gives them no meaning —
 `Props.C01.struct_stream_needed`, `Props.C01.struct_raw_stored`) and, when `x` contains a raw stream at all, the
 sentinel bound `narrowDT` (fewer than `usize::MAX` fields per struct). -/
 theorem C05_push_ok_exact (ext : Ext) (x : SVal) (b b' : B) (dt : DataType) (n : Bool) (md : Metadata)
     (hraw : structStreamsAlternate x = true) (hnar : noRaw x = true ∨ narrowDT dt = true)
-    (hwf : WFB b) (hsafe : Safe b) (hshape : Shape b dt n md) (h : push ext b x = .ok b') :
+    (hwf : WFH b) (hnd : NoDictKey b) (hdet : Det b) (hshape : Shape b dt n md) (h : push ext b x = .ok b') :
     ∃ lv, interpDT ext dt n md x = .ok lv ∧ dec b' = dec b ++ [lv] := by
-  obtain ⟨_, _, _, lv, hd, hi⟩ := Props.C01.push_interp ext x b b' dt n md hraw hnar hwf hsafe hshape h
+  obtain ⟨_, _, _, _, lv, hd, hi⟩ := Props.C01.push_interp_det ext x b b' dt n md hraw hnar hwf hnd hdet hshape h
+  exact ⟨lv, hi, hd⟩
+
+/-- the same for ANY state under the weak invariant, in terms of the observable rows: the documented value is defined and
+is the one determined row the push appends -/
+theorem C05_push_ok_exact_obs (ext : Ext) (x : SVal) (b b' : B) (dt : DataType) (n : Bool) (md : Metadata)
+    (hraw : structStreamsAlternate x = true) (hnar : noRaw x = true ∨ narrowDT dt = true)
+    (hwf : WFH b) (hnd : NoDictKey b) (hshape : Shape b dt n md) (h : push ext b x = .ok b') :
+    ∃ lv, interpDT ext dt n md x = .ok lv ∧ Refines (decH b') (decH b ++ [some lv]) := by
+  obtain ⟨_, _, _, lv, hd, hi⟩ := Props.C01.push_interp' ext x b b' dt n md hraw hnar hwf hnd hshape h
   exact ⟨lv, hi, hd⟩
 
 /-- **undefined ⇒ rejected (one push).**  A value the documented mapping does not define for the field (out of range,
 null for a non-nullable field, missing / duplicate field, wrong count, unknown variant, wrong kind …, at any depth) is
-never accepted. -/
+never accepted.  ANY state under the weak invariant (no `Safe`, no determinedness needed). -/
 theorem C05_interp_undefined_rejected (ext : Ext) (x : SVal) (b : B) (dt : DataType) (n : Bool) (md : Metadata)
     (hraw : structStreamsAlternate x = true) (hnar : noRaw x = true ∨ narrowDT dt = true)
-    (hwf : WFB b) (hsafe : Safe b) (hshape : Shape b dt n md)
+    (hwf : WFH b) (hnd : NoDictKey b) (hshape : Shape b dt n md)
     (e : Fail) (hu : interpDT ext dt n md x = .error e) : ∀ b', push ext b x ≠ .ok b' := by
   intro b' h
-  obtain ⟨lv, hi, _⟩ := C05_push_ok_exact ext x b b' dt n md hraw hnar hwf hsafe hshape h
+  obtain ⟨lv, hi, _⟩ := C05_push_ok_exact_obs ext x b b' dt n md hraw hnar hwf hnd hshape h
   rw [hu] at hi
   cases hi
 
-/-- the same for a freshly built builder: `Shape`, `WFB` come from `build_builder` -/
+/-- the same for a freshly built builder: everything but `covered` comes from `build_builder` — no hypothesis on the
+schema beside it -/
 theorem C05_new_interp_undefined_rejected (ext : Ext) (x : SVal) (path : String) (dt : DataType) (n : Bool)
-    (md : Metadata) (b : B) (hc : covered dt = true) (hnew : newDT path dt n md = .ok b) (hsafe : Safe b)
+    (md : Metadata) (b : B) (hc : covered dt = true) (hnew : newDT path dt n md = .ok b)
     (hraw : structStreamsAlternate x = true) (hnar : noRaw x = true ∨ narrowDT dt = true)
     (e : Fail) (hu : interpDT ext dt n md x = .error e) : ∀ b', push ext b x ≠ .ok b' :=
-  C05_interp_undefined_rejected ext x b dt n md hraw hnar (Props.C01.newDT_fresh dt path n md b hnew).1 hsafe
+  C05_interp_undefined_rejected ext x b dt n md hraw hnar
+    (Build.WFH_of_WFB _ (Props.C01.newDT_fresh dt path n md b hnew).1)
+    (Build.BuiltFor_NoDictKey b dt n (Props.C03.newB_builtFor path (.mk "" dt n md) b hnew))
     (Props.C01.newDT_shape dt path n md b hc hnew) e hu
 
 /-- **ok ⇒ exact (`to_marrow`).**  If `to_marrow` succeeds, EVERY input record has a documented value
 (`interpRow` is defined: every field of every record, at every depth, was representable in its column) and the
 returned arrays decode — Arrow reading rules — to exactly those values: row `i` is the struct whose `j`-th field is
-slot `i` of column `j`.  Hypotheses and coverage are those of `Props.C01.C01_build_decode`. -/
+slot `i` of column `j`.  Hypotheses and coverage are those of `Props.C01.C01_build_decode'` (no `Safe`). -/
 theorem C05_toMarrow_ok_exact (ext : Ext) (fields : List Field) (rows : List SVal) (arrs : List Arr)
     (hschema : ∀ f ∈ fields, Lemmas.C03.SchemaOKF f)
     (hcov : fields.all Build.coveredF = true)
-    (hsafe : ∀ root0, newRoot fields = .ok root0 → Safe root0)
     (hraw : ∀ x ∈ rows, Build.structStreamsAlternate x = true)
     (hnar : (∀ x ∈ rows, Build.noRaw x = true) ∨ Build.narrowRoot fields = true)
     (h : toMarrow ext fields rows = .ok arrs) :
@@ -308,17 +322,16 @@ theorem C05_toMarrow_ok_exact (ext : Ext) (fields : List Field) (rows : List SVa
       (∀ c ∈ cols, c.2.length = rows.length) ∧
       ∀ (i : Nat) (hi : i < rows.length),
         interpRow ext fields rows[i] = .ok (.struct (LFields.ofList (cols.map fun c => (c.1, c.2.getD i .null)))) := by
-  obtain ⟨_, cols, h1, h2, h3, h4⟩ := Props.C01.C01_build_decode ext fields rows arrs hschema hcov hsafe hraw hnar h
+  obtain ⟨_, cols, h1, h2, h3, h4⟩ := Props.C01.C01_build_decode' ext fields rows arrs hschema hcov hraw hnar h
   refine ⟨?_, cols, h1, h2, h3, h4⟩
   intro x hx
   obtain ⟨i, hi, rfl⟩ := List.getElem_of_mem hx
   exact ⟨_, h4 i hi⟩
 
 /-- **undefined ⇒ rejected (`to_marrow`).**  One record without a documented value anywhere in the batch makes the
-whole call fail: no array is returned.  Needs only the hypotheses of R3 (`Props.C01.runRows_interp`). -/
+whole call fail: no array is returned.  Needs only the hypotheses of R3' (`Props.C01.runRows_interp'`; no `Safe`). -/
 theorem C05_toMarrow_undefined_rejected (ext : Ext) (fields : List Field) (rows : List SVal)
     (hcov : fields.all Build.coveredF = true)
-    (hsafe : ∀ root0, newRoot fields = .ok root0 → Safe root0)
     (hraw : ∀ x ∈ rows, Build.structStreamsAlternate x = true)
     (hnar : (∀ x ∈ rows, Build.noRaw x = true) ∨ Build.narrowRoot fields = true)
     (hu : ∃ (i : Nat) (hi : i < rows.length) (e : Fail), interpRow ext fields rows[i] = .error e) :
@@ -332,11 +345,28 @@ theorem C05_toMarrow_undefined_rejected (ext : Ext) (fields : List Field) (rows 
     | error e => rw [hr] at hrun; cases hrun
     | ok r0 => exact ⟨r0, rfl⟩
   obtain ⟨root0, h0⟩ := h0
-  obtain ⟨hall, _⟩ := Props.C01.runRows_interp ext fields rows root0 root hcov h0 (hsafe root0 h0) hraw hnar hrun
+  obtain ⟨hall, _⟩ := Props.C01.runRows_interp' ext fields rows root0 root hcov h0 hraw hnar hrun
   obtain ⟨hl, hg⟩ := Props.C03.All2_get hall
   have := hg i (by rw [hl]; exact hi) hi
   rw [he] at this
   cases this
+
+/-- non-vacuity: a record without a documented value (a non-nullable dictionary field below the nullable struct is
+given `None`) against the schema OUTSIDE `Safe` of Props/C01Obs.lean is refused -/
+example : ∀ arrs, toMarrow {} Props.C01.exUnsafeFields
+    [.record "R" (.cons "s" 0 (.some (.record "S" (.cons "d" 0 .none .nil))) .nil)] ≠ .ok arrs := by
+  have hbad : ∃ e, interpRow {} Props.C01.exUnsafeFields
+      (.record "R" (.cons "s" 0 (.some (.record "S" (.cons "d" 0 .none .nil))) .nil)) = .error e := by
+    cases hi : interpRow {} Props.C01.exUnsafeFields
+        (.record "R" (.cons "s" 0 (.some (.record "S" (.cons "d" 0 .none .nil))) .nil)) with
+    | error e => exact ⟨e, rfl⟩
+    | ok v =>
+      have : (interpRow {} Props.C01.exUnsafeFields
+        (.record "R" (.cons "s" 0 (.some (.record "S" (.cons "d" 0 .none .nil))) .nil))).isOk = false := by
+        decide +kernel
+      rw [hi] at this; cases this
+  obtain ⟨e, he⟩ := hbad
+  exact C05_toMarrow_undefined_rejected {} _ _ (by decide) (by decide) (Or.inl (by decide)) ⟨0, by decide, e, he⟩
 
 /-! ## the documented lossy cells are the only cells that alter a value
 
